@@ -66,8 +66,11 @@ type env struct {
 	sequential bool
 	armed      faultKind
 	bypass     int
-	specSeq    int
-	targetSeq  int
+	// parkFetch makes FetchContents park twice, so that a directory's lock
+	// stays held for a while during its first exploration.
+	parkFetch bool
+	specSeq   int
+	targetSeq int
 
 	// avoidKnown makes the workload stay away from the one call that is
 	// known to leave a lock behind (see meta.json), so that everything
@@ -240,9 +243,25 @@ func World(prop string) simrun.World {
 			// with renames and removals (lock back-off and re-seek inside
 			// VirtualReadDir), and each listing call is checked for going
 			// backwards.
-			if r.T.Bool(1, 4) {
+			//
+			// Two runs in eight use the presence configuration
+			// (c13conc.go): concurrent callers under an oracle that knows
+			// which names are certainly bound or unbound during a call.
+			choice := r.T.Choice(8)
+			switch os.Getenv("W7_C13") { // for experiments and triage only
+			case "callers":
+				choice = 0
+			case "presence":
+				choice = 1
+			case "sequential":
+				choice = 3
+			}
+			switch choice {
+			case 0:
 				runC14(r)
-			} else {
+			case 1, 2:
+				runPresence(r)
+			default:
 				runC13(r)
 			}
 		case "C14":
